@@ -23,7 +23,8 @@ class FuncReport:
 
 
 def contract_axioms(c):
-    ax = []
+    from .vals import trigger_axioms
+    ax = list(trigger_axioms())
     if c.order_axioms:
         ax += order_axioms()
     if c.arith_axioms:
@@ -35,6 +36,36 @@ def contract_axioms(c):
     for a in c.extra_axioms:
         ax += a() if callable(a) else [a]
     return ax
+
+
+def machine_ranges(program, finfo, args, st):
+    """A2: C integer parameters and struct fields are values of their machine types; a buffer of
+    n elements has a byte size <= PTRDIFF_MAX (n <= 2**60 for 8-byte elements)."""
+    from .vals import Ptr, ArrObj, RecObj, is_z3, IntS
+    ctypes = getattr(finfo.node, 'ctypes', {})
+
+    def rng(v, t):
+        t = t.replace('const ', '').strip()
+        if not (is_z3(v) and v.sort() == IntS):
+            return
+        if t in ('int',):
+            st.assume(z3.And(v >= -2 ** 31, v <= 2 ** 31 - 1))
+        elif t in ('unsigned char', 'ba_t'):
+            st.assume(z3.And(v >= 0, v <= 255))
+        else:
+            st.assume(z3.And(v >= -2 ** 63, v <= 2 ** 63 - 1))
+    for n, v in args.items():
+        t = ctypes.get(n, 'idx_t')
+        if isinstance(v, Ptr) and v.oid is not None:
+            o = st.heap[v.oid]
+            if isinstance(o, ArrObj) and is_z3(o.length):
+                st.assume(o.length <= 2 ** 60)
+            if isinstance(o, RecObj):
+                for f, ft in program.structs.get(o.cls, ()):
+                    if f in o.fields:
+                        rng(o.fields[f], ft)
+        else:
+            rng(v, t)
 
 
 def generate(program, cname, mode='vc'):
@@ -61,10 +92,12 @@ def generate(program, cname, mode='vc'):
             args = {}
             for n, d in cc.params.items():
                 args[n] = program.make_value(ex, d, n, st, origin='param')
+            if finfo.lang == 'c':
+                machine_ranges(program, finfo, args, st)
             return st, args
         ex.explore(finfo, cc, make_entry)
         for ob in ex.obligations:
-            ob.axioms = axioms
+            ob.axioms = [] if ob.kind == 'hint-pure' else axioms
             if ex.case_label:
                 ob.name = ob.name + '[%s]' % ex.case_label
         rep.obligations += ex.obligations
